@@ -794,7 +794,13 @@ func (r *Run) fireCancel(nc int) {
 	n := int(r.ntasks.Load())
 	for i := 0; i < n; i++ {
 		t := r.tasks[i]
-		t.parkedAtFault = t.state.Load() == tParked
+		st := t.state.Load()
+		t.parkedAtFault = st == tParked
+		if !t.Client && (st == tRunning || st == tNew) {
+			// blocked in the runtime (channel operation, select, sleep, host call):
+			// the cancellation has to wake it
+			r.Stats.WokenByDone++
+		}
 	}
 	r.cancelFn()
 	if r.onCancelled != nil {
